@@ -29,6 +29,8 @@ R4 (K1 commit point) once the rename phases completed, every continuation on whi
    (the tabled fallible set: mover.*, delete_any, os/shutil/osutils name- or content-changing calls) can fail still
    reaches the metadata update (apply_inventory_delta / _apply_index_changes): a failure while discarding replaced
    content never leaves the metadata describing the old layout.
+Added while testing against seeded changes: R5 the limbo / removal helpers cloned between bzr/transform.py and
+git/transform.py have equal effect signatures.
 Does not decide: exact restoration for every transform shape; failures of in-memory computation between the phases.
 """
 ASSUMPTIONS = ["fault model: only working-tree file-system operations fail (the property's quantifier); in-memory calls between the phases and the metadata update do not"]
